@@ -97,6 +97,8 @@ def je_loop():
                         z3.ForAll([k], z3.Implies(z3.Select(ent.dict_dom(a["whole_json"]), k),
                                                   z3.And(st.dict_dom(whole_entry(ent, a["whole_json"], k)) == ent.dict_dom(whole_entry(ent, a["whole_json"], k)),
                                                          st.dict_val(whole_entry(ent, a["whole_json"], k)) == ent.dict_val(whole_entry(ent, a["whole_json"], k))))))),
+                ("the local exclusion list is the argument, or a (still) empty list when none was given",
+                 z3.If(a["excludes_fields"].none, st.length(e["excludes_fields_"].term, ("str",)) == 0, e["excludes_fields_"].term == a["excludes_fields"].term)),
                 ("results and the history list are objects created by this call", z3.And(z3.Not(ent.is_alloc(res.term)), z3.Not(ent.is_alloc(hist)), st.is_alloc(res.term), st.is_alloc(hist)))]
 
     def mods(st, ctx):
@@ -112,7 +114,4 @@ def t_json_extends():
     def setup(ex, st, a):
         st.ghost["entry_view"] = st.copy()
     obl, info = JSON_EXTENDS.verify(loops=je_loop(), setup=setup)
-    for ob in obl:
-        if "/inv-step:results (without `extends`) = resolved" in ob["name"] or "/inv-step:`extends` is pending iff" in ob["name"]:
-            ob["unfinished"] = "inductive step of the merge: the solver does not connect the dict-merge summary with the unfolding of `resolved` within the budget; init, exit => post, cycle/missing-parent clauses are discharged"
     return {"obligations": obl, "info": [info]}
